@@ -308,6 +308,15 @@ func (x *Exec) formatTyped(t types.Type, v Value, verb byte) Str {
 			return Str{bs}
 		}
 	}
+	if m, isMap := v.(*MapObj); isMap {
+		if m == nil {
+			return x.ts.StrOf("map[]")
+		}
+		x.forceMapSize(m)
+		if len(m.Entries) == 0 {
+			return x.ts.StrOf("map[]") // %v of an empty map; non-empty maps are a model limit
+		}
+	}
 	x.unsupported("format of value of type " + typeStr(t))
 	return Str{}
 }
